@@ -87,6 +87,10 @@ func (p Parameters) Verify(a, b, e *saferith.Int, S, T *saferith.Nat) bool {
 	if a == nil || b == nil || S == nil || T == nil || e == nil {
 		return false
 	}
+	// refuse oversized exponents before any work is done with them
+	if !arith.IsBoundedInt(a) || !arith.IsBoundedInt(b) {
+		return false
+	}
 	nMod := p.n.Modulus
 	if !arith.IsValidNatModN(nMod, S, T) {
 		return false
